@@ -407,6 +407,8 @@ Proof.
     destruct (in_range 0 x (sp_w sp) && in_range 0 y (sp_h sp)); simpl; split; assumption.
   - (* DrawLayer *)
     destruct (st_layer st); split; assumption.
+  - (* DrawInfLayer *)
+    destruct (st_layer st); split; assumption.
 Qed.
 
 Lemma exec_inv sp pt ops : forall st, inv sp st -> inv sp (exec sp pt st ops).
@@ -493,6 +495,7 @@ Proof.
   - destruct (find_agent id (st_agents st)); simpl; [discriminate|reflexivity].
   - intros _. destruct (st_layer st); [|reflexivity].
     destruct (in_range 0 x (sp_w sp) && in_range 0 y (sp_h sp)); reflexivity.
+  - intros _. destruct (st_layer st); reflexivity.
   - intros _. destruct (st_layer st); reflexivity.
 Qed.
 
@@ -895,6 +898,7 @@ Proof.
     intros b Hb. cbn beta. destruct (a_id b =? id); exact Hb.
   - destruct (st_layer st); [|assumption].
     destruct (in_range 0 x (sp_w sp) && in_range 0 y (sp_h sp)); simpl; assumption.
+  - destruct (st_layer st); assumption.
   - destruct (st_layer st); assumption.
 Qed.
 
@@ -1353,4 +1357,24 @@ Proof.
   unfold value_shown, shown, shown_degenerate, clip.
   destruct (hi =? lo) eqn:E; [apply Z.eqb_eq in E|apply Z.eqb_neq in E];
     destruct fam; destruct Hcases as [->|[->|[->| ->]]]; lia.
+Qed.
+
+(* ------------------------------------------------------------------ constant layers, including the infinities *)
+(* EVERY constant layer - finite, +inf or -inf - drawn in colour mode under the default scale (vmin = vmax = the
+   constant) gets alpha exactly 0, never NaN: the repaired guard compares vmax with vmin *)
+Lemma constant_layer_alpha_zero c : c <> XNaN -> alpha_color_mode c c c = AZero.
+Proof.
+  intros H. unfold alpha_color_mode. destruct c; simpl; try reflexivity; [rewrite Z.eqb_refl; reflexivity|contradiction].
+Qed.
+
+(* the same expression guarded by  span = vmax - vmin; span != 0  is NOT equivalent: inf - inf is nan and nan != 0 *)
+Definition alpha_color_mode_span (v lo hi : xz) : alpha_kind :=
+  if negb (xeqb (xsub hi lo) (Fin 0)) then xdiv_kind (xsub v lo) (xsub hi lo) else AZero.
+
+Lemma span_guard_refuted :
+  alpha_color_mode_span PInf PInf PInf = ANaN /\ alpha_color_mode_span NInf NInf NInf = ANaN /\
+  (forall z, alpha_color_mode_span (Fin z) (Fin z) (Fin z) = AZero).
+Proof.
+  split; [reflexivity|]. split; [reflexivity|].
+  intros z. unfold alpha_color_mode_span. simpl. rewrite Z.sub_diag. reflexivity.
 Qed.
